@@ -1094,8 +1094,7 @@ class Hyperplane(Subspace):
         n = spacelike_vector.shape[-1]
         transform = spacelike_to(spacelike_vector)
 
-        if len(spacelike_vector.shape) < 2:
-            spacelike_vector = np.expand_dims(spacelike_vector, axis=0)
+        spacelike_vector = np.expand_dims(spacelike_vector, axis=-2)
 
         standard_ideal_basis = np.vstack(
             [np.ones((1, n-1)), np.eye(n - 1, n - 1, -1)]
@@ -2196,7 +2195,10 @@ def spacelike_to(v, force_oriented=False):
         raise GeometryError( "Cannot find isometry taking a"
         " spacelike vector to a non-spacelike vector.")
 
-    iso = utils.find_isometry(minkowski(dim), normed)
+    # each vector is a one-row frame of its own (so arrays of
+    # vectors give arrays of isometries)
+    iso = utils.find_isometry(minkowski(dim),
+                              np.expand_dims(normed, axis=-2))
 
     #find the index of the timelike basis vector
     lengths = np.expand_dims(utils.normsq(iso, minkowski(dim)), axis=-1)
